@@ -10,6 +10,7 @@ import copy
 
 from dsim.kernel import K, Deadlock, BudgetExceeded
 from . import rulelib as RL
+from dsim import depth as DP
 
 PROPERTY = "C10"
 SRC_DIR = None
@@ -56,8 +57,8 @@ def gen_member(rng, role, base):
 
 
 def generate(cls, rng):
-    init = RL.gen_set(rng, cache=True, max_rules=2, max_dates=3,
-                      member_cache_p=0.35)
+    init = RL.gen_set(rng, cache=True, max_rules=DP.pick(2, 4),
+                      max_dates=DP.pick(3, 6), member_cache_p=0.35)
     if rng.random() < 0.25:
         for r in ("rrules", "rdates", "exrules", "exdates"):
             init[r] = []
@@ -65,13 +66,13 @@ def generate(cls, rng):
     ops = []
     live = []
     nh = 0
-    for _ in range(rng.randrange(4, 40)):
+    for _ in range(rng.randrange(4, DP.pick(40, 110))):
         r = rng.random()
         if r < 0.20:
             role = rng.choice(["rrule", "rdate", "rdate", "exrule", "exdate",
                                "exdate"])
             ops.append(["add", role, gen_member(rng, role, base)])
-        elif r < 0.35 and len(live) < 3:
+        elif r < 0.35 and len(live) < DP.pick(3, 5):
             h = "i%d" % nh
             nh += 1
             ops.append(["iter", h])
